@@ -221,6 +221,202 @@ func lockPairs(c *Check, rule string, fns map[*ssa.Function]bool) int {
 	return n
 }
 
+// ---- blocking resources: channel tokens and mutexes ------------------------------
+
+// resKey identifies a blocking resource by the struct field that holds it
+// (owner type + field), so that the same semaphore is recognised through a
+// parameter in one function and a captured variable in a closure.
+func resKey(v ssa.Value) string {
+	v = unspill(v)
+	if own, fld, _, ok := loadedField(v); ok && own != nil {
+		return own.Obj().Name() + "." + fld
+	}
+	if own, fld, _, ok := fieldOfAddr(v); ok && own != nil {
+		return own.Obj().Name() + "." + fld
+	}
+	return exprKey(v, 0)
+}
+
+type acquisition struct {
+	ins  ssa.Instruction
+	key  string
+	kind string // "token" (channel send) | "lock"
+}
+
+func acquisitionsIn(f *ssa.Function) []acquisition {
+	var out []acquisition
+	eachInstr(f, func(_ *ssa.BasicBlock, i ssa.Instruction) {
+		switch x := i.(type) {
+		case *ssa.Send:
+			if _, _, _, isField := loadedField(unspill(x.Chan)); isField {
+				out = append(out, acquisition{i, resKey(x.Chan), "token"})
+			}
+		case *ssa.Call:
+			if o := calleeObj(x); o != nil && o.Pkg() != nil && o.Pkg().Path() == "sync" && (o.Name() == "Lock" || o.Name() == "RLock") && len(x.Call.Args) > 0 {
+				out = append(out, acquisition{i, resKey(x.Call.Args[0]), "lock"})
+			}
+		}
+	})
+	return out
+}
+
+func isRelease(i ssa.Instruction, a acquisition) bool {
+	switch x := i.(type) {
+	case *ssa.UnOp:
+		return a.kind == "token" && x.Op == token.ARROW && resKey(x.X) == a.key
+	case *ssa.Call:
+		if a.kind == "lock" {
+			if o := calleeObj(x); o != nil && o.Pkg() != nil && o.Pkg().Path() == "sync" && (o.Name() == "Unlock" || o.Name() == "RUnlock") && len(x.Call.Args) > 0 {
+				return resKey(x.Call.Args[0]) == a.key
+			}
+		}
+	}
+	return false
+}
+
+// deferredRelease: a defer registered in f (before or after the acquisition —
+// it runs at function exit) whose callee, or closure body, releases a.
+func deferredRelease(f *ssa.Function, a acquisition) bool {
+	found := false
+	eachInstr(f, func(_ *ssa.BasicBlock, i ssa.Instruction) {
+		d, ok := i.(*ssa.Defer)
+		if !ok {
+			return
+		}
+		if a.kind == "lock" {
+			if o := calleeObj(d); o != nil && o.Pkg() != nil && o.Pkg().Path() == "sync" && (o.Name() == "Unlock" || o.Name() == "RUnlock") && len(d.Call.Args) > 0 && resKey(d.Call.Args[0]) == a.key {
+				found = true
+			}
+		}
+		if mc, ok := d.Call.Value.(*ssa.MakeClosure); ok {
+			if fn, ok := mc.Fn.(*ssa.Function); ok {
+				eachInstr(fn, func(_ *ssa.BasicBlock, j ssa.Instruction) {
+					if isRelease(j, a) {
+						found = true
+					}
+				})
+			}
+		}
+	})
+	return found
+}
+
+// repoReach: repository functions reachable from f through static calls and
+// through every closure created along the way (closures handed to go, defer,
+// errgroup.Go … are assumed to run).
+func repoReach(p *Program, f *ssa.Function) map[*ssa.Function]bool {
+	seen := map[*ssa.Function]bool{}
+	var visit func(g *ssa.Function)
+	visit = func(g *ssa.Function) {
+		if g == nil || seen[g] || len(g.Blocks) == 0 || !isRepoFn(g) {
+			return
+		}
+		seen[g] = true
+		eachInstr(g, func(_ *ssa.BasicBlock, i ssa.Instruction) {
+			if ci, ok := i.(ssa.CallInstruction); ok {
+				visit(normFn(p, ci.Common().StaticCallee()))
+			}
+			if mc, ok := i.(*ssa.MakeClosure); ok {
+				if fn, ok := mc.Fn.(*ssa.Function); ok {
+					visit(fn)
+				}
+			}
+		})
+	}
+	visit(f)
+	return seen
+}
+
+// blockingResources checks, for every channel-token send and mutex lock in fns:
+//   pairRule: every path from the acquisition to a return passes the release (or
+//             a deferred release exists) — a token or lock leaked on one exit
+//             starves every later acquirer;
+//   holdRule: while it is held, no call can reach another acquisition of the
+//             same resource — a recursive walk that keeps its token while it
+//             waits for its children deadlocks once the nesting exceeds the
+//             capacity (for a mutex: at once).
+func blockingResources(c *Check, pairRule, holdRule string, fns map[*ssa.Function]bool) int {
+	p := c.P
+	var list []*ssa.Function
+	for f := range fns {
+		list = append(list, f)
+	}
+	sort.Slice(list, func(i, j int) bool { return fnName(list[i]) < fnName(list[j]) })
+	n := 0
+	for _, f := range list {
+		if p.isGeneratedFile(p.fnFile(f)) {
+			continue
+		}
+		for _, a := range acquisitionsIn(f) {
+			n++
+			what := map[string]string{"token": "token taken from " + a.key, "lock": "lock on " + a.key}[a.kind]
+			deferred := deferredRelease(f, a)
+			if pairRule != "" {
+				key := fmt.Sprintf("%s|%s released on all paths", fnName(f), what)
+				if deferred {
+					c.Okf(pairRule, key, p.pos(a.ins.Pos()), "a deferred release covers every exit")
+				} else if ret, bad := reachAvoiding(a.ins, isReturn, func(j ssa.Instruction) bool { return isRelease(j, a) }); bad {
+					c.Flagf(pairRule, key, p.pos(a.ins.Pos()), "a path from here reaches the return at %s without giving the %s back: later acquirers block forever and the command never ends", p.pos(ret.Pos()), a.kind)
+				} else {
+					c.Okf(pairRule, key, p.pos(a.ins.Pos()), "every path to a return passes the release")
+				}
+			}
+			if holdRule != "" {
+				key := fmt.Sprintf("%s|%s not held across a nested acquisition", fnName(f), what)
+				bad := ""
+				// calls reachable from the acquisition before a release (all later calls when the release is deferred)
+				eachInstr(f, func(_ *ssa.BasicBlock, j ssa.Instruction) {
+					if bad != "" || j == a.ins {
+						return
+					}
+					ci, ok := j.(ssa.CallInstruction)
+					if !ok {
+						return
+					}
+					if _, isDefer := j.(*ssa.Defer); isDefer {
+						return
+					}
+					callee := normFn(p, ci.Common().StaticCallee())
+					var targets []*ssa.Function
+					if callee != nil && isRepoFn(callee) {
+						targets = append(targets, callee)
+					}
+					for _, arg := range ci.Common().Args { // closures handed to the callee
+						if fn, ok := stripFuncValue(arg); ok {
+							targets = append(targets, fn)
+						}
+					}
+					if len(targets) == 0 {
+						return
+					}
+					held := false
+					if deferred {
+						held = canReach(a.ins, j, nil)
+					} else {
+						held = canReach(a.ins, j, func(k ssa.Instruction) bool { return isRelease(k, a) })
+					}
+					if !held {
+						return
+					}
+					for _, tg := range targets {
+						for g := range repoReach(p, tg) {
+							for _, b := range acquisitionsIn(g) {
+								if b.key == a.key && b.kind == a.kind {
+									bad = fmt.Sprintf("the call at %s runs while it is held and reaches %s, which acquires it again at %s", p.pos(j.Pos()), fnName(g), p.pos(b.ins.Pos()))
+								}
+							}
+						}
+					}
+				})
+				c.Cond(bad == "", holdRule, key, p.pos(a.ins.Pos()),
+					"no call made while it is held can reach another acquisition of the same resource",
+					"nested acquisition while held: "+bad+" — the walk deadlocks once its nesting exceeds the capacity")
+			}
+		}
+	}
+	return n
+}
+
 func clipKey(s string) string {
 	if len(s) > 40 {
 		return s[:40]
